@@ -315,7 +315,7 @@ def known_value_keys(pid):
     return [[k['match']['sol'], k['match']['fn']] for k in known_for(pid) if 'sol' in k.get('match', {}) and 'fn' in k.get('match', {})]
 
 
-def value_check(pid, tier_, plan, kbits=14, rule='', extra_execs=(), all_known=False, mix=False, accstat=False):
+def value_check(pid, tier_, plan, kbits=14, rule='', extra_execs=(), all_known=False, mix=False, accstat=True):
     """plan: list of (solution, evaluators or None, nassign, npts)."""
     t0 = time.time()
     rng = random.Random(seed())
@@ -326,6 +326,17 @@ def value_check(pid, tier_, plan, kbits=14, rule='', extra_execs=(), all_known=F
             execs.append(gen.gen_values(rng, sol, nassign=min(6, left), npts=npt, evaluators=evs, mix=mix))
             left -= 6
     execs += list(extra_execs)
+    # exact zeros: one assignment per zeroable parameter with only that parameter exactly 0 (all of them for solutions with
+    # <= 16 such parameters and in the thorough tier, a random 8 otherwise), plus one assignment with a random third of them 0
+    for sol, evs, na, npt in plan:
+        ks = gen.zeroable(sol)
+        if not ks:
+            continue
+        pick = list(ks) if (len(ks) <= 16 or tier_ == 'thorough') else rng.sample(ks, 8)
+        zp = [{k} for k in pick] + [set(k for k in ks if rng.random() < 0.33)]
+        for i in range(0, len(zp), 6):
+            execs.append(gen.gen_values(rng, sol, nassign=len(zp[i:i + 6]), npts=1, evaluators=evs, zero_plan=zp[i:i + 6]))
+            execs[-1].label = 'zeros:%s' % sol
     # the library's own default parameters (the inputs of every test and example of the repository)
     execs += [gen.gen_default_values(rng, sol, npts=max(2, npt), evaluators=evs) for sol, evs, na, npt in plan]
     # thorough: the repository's own programs that use these solutions, traced through the shim, judged by the same oracle
@@ -455,7 +466,7 @@ def c20(tier_):
     na, npt = reps(tier_, (2, 3), (20, 6))
     execs = [gen.gen_reduction(rng, *r, npts=npt, nassign=na) for r in gen.reductions()]
     return run_trace_check('C20', tier_, execs, relax=('live', 'memo'), oracle=True, level='exploration',
-        rule='22 reductions (3D->2D Euler and NS with z amplitudes and w zero; NS->Euler with mu=k=0; transient->steady Euler; unsteady->steady heat; variable->constant heat), the two solutions on two handles of one process, shared parameters random, both precisions; the trace specification history variable pairs demands that the two values of a pair agree within 2^15 u_p mag and both are judged by the oracle. distinct = distinct (call, arguments) shapes',
+        rule='22 reductions (3D->2D Euler and NS with z amplitudes and w zero; NS->Euler with mu=k=0; transient->steady Euler; unsteady->steady heat; variable->constant heat), the two solutions on two handles of one process, shared parameters random, both precisions; the trace specification history variable pairs demands that the two values of a pair agree within 2^8 u_p mag and both are judged by the oracle. distinct = distinct (call, arguments) shapes',
         assumptions=VAL_ASSUME, extra_cov=lambda ex: dict(pairs=sum(1 for e in ex for ev in e.events if ev.get('pair')) // 2))
 
 
